@@ -67,6 +67,9 @@ def _binding_selftest(chk, drv, rows, d):
     probe = vlib.Check(chk.pid, chk.tier, chk.seed)
     probe.findings = []
     vlib.run_driver(probe, drv, ["all", path, str(max(x["slot"] for x in rows))], timeout=120)
+    for _, _, rp in probe.violations:  # the probe's replay files are not findings
+        if rp and os.path.exists(rp):
+            os.remove(rp)
     n = len(picked) * 6
     if len(probe.violations) != n:
         raise vlib.MachineryError("binding self-test: %d flipped cases, %d rejected" % (n, len(probe.violations)))
